@@ -86,18 +86,30 @@ func shapeOf(shape int) (ext bool, payload int) {
 }
 
 // rawRTP builds the packet by hand (version 2; shape with extension: 2 CSRCs and a one-byte-header extension block of one word).
+// extValue is the value of header extension 1 of the packet with this sequence number: one byte on even
+// numbers, six on odd ones (same layout - profile, number of extensions, CSRCs -, different header size).
+func extValue(seq uint16) []byte {
+	if seq%2 == 0 {
+		return []byte{0xAA}
+	}
+	return []byte{0xAA, 2, 3, 4, 5, 6}
+}
+
 func rawRTP(ext bool, payload int, seq uint16, ts, ssrc uint32) []byte {
 	var b []byte
 	if !ext {
 		b = make([]byte, 12)
 		b[0] = 0x80
 	} else {
-		b = make([]byte, 12+8+8)
+		v := extValue(seq)
+		words := (1 + len(v) + 3) / 4
+		b = make([]byte, 12+8+4+4*words)
 		b[0] = 0x80 | 0x10 | 2
 		binary.BigEndian.PutUint32(b[12:], 0x11111111)
 		binary.BigEndian.PutUint32(b[16:], 0x22222222)
-		b[20], b[21], b[22], b[23] = 0xBE, 0xDE, 0x00, 0x01
-		b[24], b[25] = 0x10, 0xAA // id 1, length 1
+		b[20], b[21], b[22], b[23] = 0xBE, 0xDE, 0x00, byte(words)
+		b[24] = 0x10 | byte(len(v)-1) // id 1
+		copy(b[25:], v)
 	}
 	b[1] = 96
 	binary.BigEndian.PutUint16(b[2:], seq)
@@ -165,7 +177,7 @@ func (s *system) doRTP(o op) error {
 	h := &rtp.Header{Version: 2, PayloadType: 96, SequenceNumber: seq, Timestamp: ts, SSRC: ssrc}
 	if ext {
 		h.CSRC = []uint32{0x11111111, 0x22222222}
-		if err := h.SetExtension(1, []byte{0xAA}); err != nil {
+		if err := h.SetExtension(1, extValue(seq)); err != nil {
 			return err
 		}
 	}
